@@ -106,6 +106,53 @@ def rstep : Step → List PT
   | .mk ax t ps => (.axisname, axisBytes ax) :: tDcolon :: rtest t ++ rpreds ps
 end
 
+/-! ### the abbreviated text (REC §2.5)
+
+`atoks` = `rtoks` with every step written in its abbreviated form where one exists: `child::` is omitted, `attribute::` is
+`@`, `self::node()` / `parent::node()` without predicates are `.` / `..` (`//` is left to `abbrev_dslash_*`). -/
+
+/-- `node()` -/
+def isNodeT : Test → Bool
+  | .node => true
+  | _ => false
+
+def tDot : PT := (.dot, [0x2e])
+def tDdot : PT := (.ddot, [0x2e, 0x2e])
+def tAt : PT := (.at, [0x40])
+
+mutual
+def atoks : Expr → List PT
+  | .lit s => [(.literal, quoteFor s :: s ++ [quoteFor s])]
+  | .num m sc => [(.number, numText m sc)]
+  | .fn name as => (.funcname, fnBytes name) :: tPar1 :: aargs false as ++ [tPar2]
+  | .bin op a b => wrap (opLevel op) a (atoks a) ++ opTok op :: wrap (opLevel op + 1) b (atoks b)
+  | .neg a => tMinus :: wrap 7 a (atoks a)
+  | .path .root steps => tSlash :: asteps false steps
+  | .path .ctx steps => asteps false steps
+  | .path (.expr e) steps => par (atoks e) ++ asteps true steps
+  | .filter e ps => par (atoks e) ++ apreds ps
+
+def aargs : Bool → List Expr → List PT
+  | _, [] => []
+  | sep, a :: r => (if sep then [tComma] else []) ++ atoks a ++ aargs true r
+
+def apreds : List Expr → List PT
+  | [] => []
+  | p :: r => tBrack1 :: atoks p ++ tBrack2 :: apreds r
+
+def asteps : Bool → List Step → List PT
+  | _, [] => []
+  | sep, s :: r => (if sep then [tSlash] else []) ++ astep s ++ asteps true r
+
+def astep : Step → List PT
+  | .mk ax t ps =>
+    if ax == .self && isNodeT t && ps.isEmpty then [tDot]
+    else if ax == .parent && isNodeT t && ps.isEmpty then [tDdot]
+    else if ax == .child then rtest t ++ apreds ps
+    else if ax == .attribute then tAt :: rtest t ++ apreds ps
+    else (.axisname, axisBytes ax) :: tDcolon :: rtest t ++ apreds ps
+end
+
 /-- token text, followed by one space unless the token is an axis name or `::` -/
 def tokText (t : PT) : Bytes := if t.1 == .axisname || t.1 == .dcolon then t.2 else t.2 ++ [0x20]
 
@@ -113,5 +160,26 @@ def detok (ts : List PT) : Bytes := ts.flatMap tokText
 
 /-- the canonical text -/
 def render (e : Expr) : Bytes := detok (rtoks e)
+
+/-! ### the same tokens with other white space
+
+`renderW bs e`: the `i`-th token is followed by the `i`-th blank string of `bs` instead of one space (one space where `bs`
+is too short; still nothing after an axis name and after `::`).  `Blanks bs`: every string of `bs` is a non-empty string
+of white-space bytes (space, tab, LF, CR). -/
+
+def Blank (b : Bytes) : Prop := b ≠ [] ∧ ∀ c ∈ b, Path.isWs c = true
+def Blanks (bs : List Bytes) : Prop := ∀ b ∈ bs, Blank b
+
+def tokTextW (t : PT) (b : Bytes) : Bytes := if t.1 == .axisname || t.1 == .dcolon then t.2 else t.2 ++ b
+
+def detokW : List PT → List Bytes → Bytes
+  | [], _ => []
+  | t :: ts, [] => tokTextW t [0x20] ++ detokW ts []
+  | t :: ts, b :: bs => tokTextW t b ++ detokW ts bs
+
+def renderW (bs : List Bytes) (e : Expr) : Bytes := detokW (rtoks e) bs
+
+/-- the abbreviated text (`atoks`) with the blank strings `bs` after its tokens -/
+def renderAW (bs : List Bytes) (e : Expr) : Bytes := detokW (atoks e) bs
 
 end LyModel.XPath.Render
